@@ -26,6 +26,8 @@
 #include <string>
 #include <vector>
 #include <memory>
+#include <map>
+#include <thread>
 #include <sys/syscall.h>
 #include <sys/time.h>
 #include <time.h>
@@ -121,6 +123,8 @@ QVariant parseValue(Tok &k)
     if (c == "S") return QVariant(unhexs(k.next()));
     if (c == "I") return QVariant(qlonglong(k.num()));
     if (c == "i") return QVariant(int(k.num()));
+    if (c == "u") return QVariant(uint(strtoull(k.next().c_str(), nullptr, 10)));
+    if (c == "U") return QVariant(qulonglong(strtoull(k.next().c_str(), nullptr, 10)));
     if (c == "B") return QVariant(bool(k.num() != 0));
     if (c == "D") {
         quint64 bits = strtoull(k.next().c_str(), nullptr, 16);
@@ -229,9 +233,17 @@ struct MsgSpec
 
     LogMessage make() const
     {
-        QMessageLogContext ctx(fileNull ? nullptr : file.constData(), line,
-                               funcNull ? nullptr : func.constData(),
-                               catNull ? nullptr : cat.constData());
+        // The source-location strings live in caller-owned buffers that are REUSED for every message (what a binding layer that
+        // formats into a scratch buffer does): equal pointers therefore do not mean equal text.
+        static std::vector<char> bufFile(70016), bufFunc(70016), bufCat(70016);
+        auto put = [](std::vector<char> &b, const QByteArray &v) {
+            size_t n = std::min(size_t(v.size()), b.size() - 1);
+            memcpy(b.data(), v.constData(), n);
+            b[n] = 0;
+            return b.data();
+        };
+        QMessageLogContext ctx(fileNull ? nullptr : put(bufFile, file), line, funcNull ? nullptr : put(bufFunc, func),
+                               catNull ? nullptr : put(bufCat, cat));
         LogMessage m(type, ctx, textNull ? QString() : text);
         for (const auto &p : attrList) m.setAttribute(p.first, p.second);
         g_clockOffsetNs += g_lagMs * 1000000LL;
@@ -994,6 +1006,10 @@ int main(int argc, char **argv)
                 sp.process(m);
             } else if (how == 2) {
                 outText = JsonFormatter::instance()->format(m);
+            } else if (how == 3) {
+                // one long-lived formatter per mode formats every such record of this process (state carried between records)
+                static JsonFormatter longLived[2] = { JsonFormatter(false), JsonFormatter(true) };
+                outText = longLived[compact ? 1 : 0].format(m);
             } else {
                 JsonFormatter jf(compact);
                 outText = jf.format(m);
@@ -1005,8 +1021,11 @@ int main(int argc, char **argv)
             MsgSpec ms;
             ms.parse(k);
             LogMessage m = ms.make();
-            SentryFormatter sf(sdkn, sdkv);
-            std::cout << "R " << id << " " << hexs(sf.format(m)) << " " << stamp(m) << "\n";
+            // formatters are long-lived objects in applications: one instance per (sdk name, version) serves all events of the process
+            static std::map<std::pair<QString, QString>, std::unique_ptr<SentryFormatter>> cache;
+            auto &slot = cache[std::make_pair(sdkn, sdkv)];
+            if (!slot) slot.reset(new SentryFormatter(sdkn, sdkv));
+            std::cout << "R " << id << " " << hexs(slot->format(m)) << " " << stamp(m) << "\n";
         } else if (cmd == "T") {
             bool colorize = k.num() != 0;
             int width = int(k.num());
@@ -1021,6 +1040,45 @@ int main(int argc, char **argv)
                 out << " " << hexs(pf.format(m)) << " " << stamp(m);
             }
             std::cout << out.str() << "\n";
+        } else if (cmd == "TT") {
+            // messages from N distinct threads formatted by one PrettyFormatter in a scripted order
+            bool colorize = k.num() != 0;
+            int width = int(k.num());
+            int nthreads = int(k.num());
+            int ncat = int(k.num());
+            std::vector<QByteArray> cats;
+            for (int i = 0; i < ncat; ++i) cats.push_back(unhexb(k.next()));
+            int norder = int(k.num());
+            std::vector<std::unique_ptr<LogMessage>> msgs(static_cast<size_t>(nthreads));
+            {
+                std::vector<std::thread> th;
+                for (int t = 0; t < nthreads; ++t)
+                    th.emplace_back([&, t]() {
+                        QMessageLogContext ctx("f.cpp", t, "fn", cats[size_t(t) % cats.size()].constData());
+                        msgs[size_t(t)].reset(new LogMessage(kTypes[t % 4], ctx, QStringLiteral("text-of-t%1").arg(t)));
+                    });
+                for (auto &t : th) t.join();
+            }
+            PrettyFormatter pf(colorize, width);
+            std::ostringstream out;
+            out << "R " << id;
+            for (int i = 0; i < norder; ++i) {
+                int t = int(k.num()) % nthreads;
+                out << " " << hexs(pf.format(*msgs[size_t(t)]));
+            }
+            std::cout << out.str() << "\n";
+        } else if (cmd == "FP") {
+            // which file does a FileSink create for a path template? (digits normalised; the name must not depend on the build variant)
+            QTemporaryDir dir;
+            QString tmpl = unhexs(k.next());
+            {
+                FileSink fs(dir.path() + QLatin1Char('/') + tmpl);
+            }
+            QStringList names = QDir(dir.path()).entryList(QDir::Files | QDir::NoDotAndDotDot, QDir::Name);
+            QString joined = names.join(QLatin1Char('|'));
+            for (int i = 0; i < joined.size(); ++i)
+                if (joined.at(i).isDigit()) joined[i] = QLatin1Char('N');
+            std::cout << "R " << id << " " << hexs(joined) << "\n";
         } else if (cmd == "C") {
             run_category(k, id);
         } else if (cmd == "Q") {
